@@ -15,6 +15,13 @@ import (
 type RawHTTPResponder struct {
 	writer   io.Writer
 	response *http.Response
+	toHead   bool // the response answers a HEAD request: no body bytes, whatever is written
+}
+
+// Tells the responder which request method it answers. The answer to a HEAD request never has a
+// body, error messages included: the client does not read one and would take it for the next response.
+func (c *RawHTTPResponder) SetRequestMethod(method string) {
+	c.toHead = method == http.MethodHead
 }
 
 func NewRawHTTPResponder(writer io.Writer) *RawHTTPResponder {
@@ -129,6 +136,10 @@ func (c *RawHTTPResponder) WriteError(message string, errorCode int) error {
 	h := resp.Header
 	h.Set("Content-Type", "text/plain; charset=utf-8")
 	h.Set("X-Content-Type-Options", "nosniff")
+
+	if c.toHead {
+		resp.Request = &http.Request{Method: http.MethodHead}
+	}
 
 	return c.writeResponse()
 }
